@@ -29,8 +29,11 @@ module proves the success itself.
   implementation satisfies `implSomeOKB` = `wf` ∧ `implGenOKB` ∧ `targetsOKB` ∧ gap-free forks ∧ "added nodes have different keys".
   `library_cell_resolves` — hence for EVERY built-in implementation and EVERY host / instance satisfying the host-side conditions
   (also instances with unconnected pins) `substitute` succeeds.
-* `resolve_step_isSome` — one iteration of `resolve_tlib_cells`.  `resolve_isSome_of_genOK` — `resolveGenOKB` (decidable, evaluated by
-  running the model) contains the success of every step, so `resolveCells … = some _` is no extra hypothesis of `resolve_sem_general`.
+* `resolve_step_isSome` — one iteration of `resolve_tlib_cells`.
+* `resolveGenOKB_unfold` (formerly `resolve_isSome_of_genOK`; the old name is kept as a deprecated alias) is NOT a success theorem:
+  `resolveGenOKB` is DEFINED by running `substitute` along the loop and answering `false` on `none`, so "`resolveGenOKB = true` →
+  `resolveCells … = some _`" only unfolds its hypothesis (audit 2, finding 6 / B-C10-1).  It is bookkeeping: `resolve_sem_general` need not
+  list the success separately.
 * **Correspondence**: that the generated dumps ARE the library objects (gen/dump_techlib.py: `render_nnet` = `circ.dump_net`), and the
   hypotheses evaluated per case by harness/c10.py (driver command `substsome`; tags `isSome-hyp:*`): a real use inside the hypotheses
   on which the real code raises is a broken tie.
@@ -97,8 +100,9 @@ theorem resolve_step_isSome (lib : Lib) (cur : NNet) (key : String × Bool)
     · rfl
   · rfl
 
-/-- `resolveGenOKB` (hypothesis of `resolve_sem_general`) contains the success of every step -/
-theorem resolve_isSome_of_genOK (lib : Lib) : ∀ (keys : List (String × Bool)) (cur : NNet), resolveGenOKB lib keys cur = true →
+/-- UNFOLDING LEMMA, not a success theorem: `resolveGenOKB` (hypothesis of `resolve_sem_general`) is defined by running `substitute`
+    along the loop (`false` on `none`), so it contains the success of every step by definition -/
+theorem resolveGenOKB_unfold (lib : Lib) : ∀ (keys : List (String × Bool)) (cur : NNet), resolveGenOKB lib keys cur = true →
     (keys.foldlM (resolveStep lib) cur).isSome = true
   | [], _, _ => rfl
   | key :: rest, cur, hok => by
@@ -127,7 +131,11 @@ theorem resolve_isSome_of_genOK (lib : Lib) : ∀ (keys : List (String × Bool))
         exact ⟨cur, rfl, hok⟩
     obtain ⟨nxt, h1, h2⟩ := step
     simp only [List.foldlM_cons, Option.bind_eq_bind, h1, Option.bind_some]
-    exact resolve_isSome_of_genOK lib rest nxt h2
+    exact resolveGenOKB_unfold lib rest nxt h2
+
+/-- old name of `resolveGenOKB_unfold` (a tautology by the definition of `resolveGenOKB`; kept for references in older documents) -/
+@[deprecated resolveGenOKB_unfold (since := "2026-09-30")]
+abbrev resolve_isSome_of_genOK := @resolveGenOKB_unfold
 
 /-! ## non-vacuity -/
 /-- hypotheses of `substitute_isSome` on a use with an IGNORED connected pin (`TBUF`-style cell of Props/C10.lean), on a cell
